@@ -133,24 +133,27 @@ func (r *MDNS) Name() string {
 	return "mdns"
 }
 
+// The values slices are updated in place by addEntry: hand out copies so callers
+// can keep reading them after the lock is released.
+
 func (r *MDNS) Visit(f func(name string, addrs []string)) {
 	r.mu.RLock()
 	defer r.mu.RUnlock()
 	for name, addrs := range r.names {
-		f(name, addrs.values)
+		f(name, append([]string(nil), addrs.values...))
 	}
 }
 
 func (r *MDNS) LookupAddr(addr string) []string {
 	r.mu.RLock()
 	defer r.mu.RUnlock()
-	return r.addrs[addr].values
+	return append([]string(nil), r.addrs[addr].values...)
 }
 
 func (r *MDNS) LookupHost(name string) []string {
 	r.mu.RLock()
 	defer r.mu.RUnlock()
-	return r.names[prepareHostLookup(name)].values
+	return append([]string(nil), r.names[prepareHostLookup(name)].values...)
 }
 
 func isErrNetUnreachableOrInvalid(err error) bool {
